@@ -61,6 +61,8 @@ def run_stage(w, train, ospec, steps, reseed=None):
     reached = W.reach_learnables(train)
     names = [n for n, _ in reached]
     params = [p for _, p in reached]
+    for c, wt in zip(train, (getattr(w, "spec", {}) or {}).get("late_weights") or []):
+        c.weight = wt                 # weights assigned after the Solver object exists (the real run does it there)
     n_adaptive = install_own_ascent(w, train)
     theta0 = W.clone_state(params)
     opt, sched, freq = make_optimizer(ospec, params)
